@@ -573,6 +573,7 @@ def units(tier, seed):
     out.append(["keyfault", "tuple"])
     out.append(["keyfault", "tupleint"])
     out.append(["slice_chain"])
+    out.append(["stale_key"])
     for i in range(b["hyp_units"]):
         out.append(["hyp", i])
     if tier == "thorough":
@@ -669,6 +670,8 @@ def run_unit(ctx, unit):
         run_keyfault(ctx, unit[1], b)
     elif kind == "slice_chain":
         run_slice_chain(ctx, b)
+    elif kind == "stale_key":
+        run_stale_key(ctx, b)
     elif kind == "fuzz":
         from vf.fuzz import common
 
@@ -748,6 +751,35 @@ def run_keyfault(ctx, uname, b):
                 if not keyfault_case(ctx, dict(case, fault=n), before):
                     return
     ctx.count("keyfault_units_completed")
+
+
+def run_stale_key(ctx, b):
+    """A keyed spec-class item whose key attribute was changed behind the container's back (a user may do that): whatever the
+    container then refuses, it refuses before touching either of its two representations."""
+    KL = env()["KeyedList"]
+    It = env()["It"]
+    for op in (["delitem_idx", 0], ["setitem_idx", 0, "new"], ["pop", 0], ["delitem_idx", 1], ["remove", 0]):
+        case = {"universe": "spec", "stale_key": True, "ops": [op]}
+        real = KL([It("a", v=0), It("b", v=1)])
+        real[0].k = "zz"  # the stored item's key no longer matches the index entry 'a'
+        lst_before, keys_before = [id(x) for x in real], sorted(real.keys())
+        try:
+            if op[0] == "delitem_idx":
+                del real[op[1]]
+            elif op[0] == "setitem_idx":
+                real[op[1]] = It("n", v=9)
+            elif op[0] == "pop":
+                real.pop(op[1])
+            else:
+                real.remove(real[op[1]])
+            raised = False
+        except (KeyError, ValueError):
+            raised = True
+        if raised and ([id(x) for x in real], sorted(real.keys())) != (lst_before, keys_before):
+            ctx.fail(f"stale_key:{op[0]}:changed_on_raise", case, f"{op} raised, but the container changed: list {len(lst_before)} -> {len(real)} items, keys {keys_before} -> {sorted(real.keys())}")
+            return
+        ctx.case(case, raised)
+    ctx.count("stale_key_completed")
 
 
 def run_slice_chain(ctx, b):
@@ -839,5 +871,7 @@ def replay(ctx, case):
         keyfault_case(ctx, case)
     elif case.get("slice_chain"):
         run_slice_chain(ctx, BOUNDS["quick"])
+    elif case.get("stale_key"):
+        run_stale_key(ctx, BOUNDS["quick"])
     else:
         run_case(ctx, case)
